@@ -7,6 +7,7 @@ CONSTANTS NumNodes <- WNumNodes
           HashLen = 32
           Versions <- WVersions
           MaxRef = 1
+          EdgeDepth <- WEdgeDepth
 INVARIANTS LiveReadable FlushIsCache SizeExact ExtSound DiskClosed CacheClosed NoGarbageUnflushed NoGarbageWhenIdle
 ACTION_CONSTRAINT Edge
 VIEW View
